@@ -1013,3 +1013,54 @@ func specialPair(t *rapid.T, ms *ModuleSet) {
 		renameModules(ms, f, same, same)
 	}
 }
+
+// NamePairModuleSets: a deterministic family of conflict-free module sets around special name pairs (names.go). For every
+// pair (A, B): three files - one defines type A with relation "owner" and a condition, one defines type B, one extends
+// B with a relation "owner" and A with a relation "extra" - with the pair used as type names; and the same shape with
+// the pair used as the names of two relations contributed to ONE type by two different extension files. Nothing
+// clashes: a merge must succeed for every order of the files and attribute every relation to its own file.
+func NamePairModuleSets() []*ModuleSet {
+	pairs := [][2]string{{"member", "members"}, {"group", "subgroup"}, {"document_viewer", "document_editor"}, {"workspace_member_a", "workspace_member_b"},
+		{"team1", "team01"}, {"viewer", "Viewer"}, {"team-", "team"}, {"ab", "abc"}, {"team", "teamspace"}}
+	for i, tw := range HashTwins() {
+		if i%12 < 2 {
+			pairs = append(pairs, tw)
+		}
+	}
+	this := func() (*Rewrite, []Restriction) { return &Rewrite{Kind: This}, []Restriction{{Type: "user"}} }
+	rel := func(n string) Relation { rw, rs := this(); return Relation{Name: n, Rw: rw, Restr: rs} }
+	var out []*ModuleSet
+	for _, p := range pairs {
+		for variant := 0; variant < 2; variant++ {
+			a, b := p[0], p[1]
+			ms := &ModuleSet{Schema: "1.2"}
+			if variant == 0 {
+				// the pair as type names
+				ms.Files = []ModFileSpec{
+					{Name: "core.fga", Module: "core", Extend: map[int]bool{}, Model: &Model{Types: []TypeDef{{Name: "user"}, {Name: a, Rels: []Relation{rel("owner")}}}}},
+					{Name: "wiki.fga", Module: "wiki", Extend: map[int]bool{}, Model: &Model{Types: []TypeDef{{Name: b, Rels: []Relation{rel("reader")}}}}},
+					{Name: "ext.fga", Module: "ext", Extend: map[int]bool{0: true, 1: true}, Model: &Model{Types: []TypeDef{{Name: b, Rels: []Relation{rel("owner")}}, {Name: a, Rels: []Relation{rel("extra")}}}}},
+				}
+			} else {
+				if !singleToken(a) || !singleToken(b) {
+					continue
+				}
+				// the pair as relation names contributed to one type by two extension files
+				ms.Files = []ModFileSpec{
+					{Name: "core.fga", Module: "core", Extend: map[int]bool{}, Model: &Model{Types: []TypeDef{{Name: "user"}, {Name: "doc", Rels: []Relation{rel("owner")}}}}},
+					{Name: "x1.fga", Module: "x1", Extend: map[int]bool{0: true}, Model: &Model{Types: []TypeDef{{Name: "doc", Rels: []Relation{rel(a)}}}}},
+					{Name: "x2.fga", Module: "x2", Extend: map[int]bool{0: true}, Model: &Model{Types: []TypeDef{{Name: "doc", Rels: []Relation{rel(b)}}}}},
+				}
+			}
+			for i := range ms.Files {
+				f := &ms.Files[i]
+				r := Render(f.Model, Canonical{}, RenderOpts{Module: f.Module, Extend: f.Extend})
+				f.Text, f.Pos, f.Fixed = r.Text, r.Pos, true
+			}
+			ms.Expected = ms.expected()
+			ms.Scale = "name-pair-family"
+			out = append(out, ms)
+		}
+	}
+	return out
+}
